@@ -388,7 +388,7 @@ func c11Pre(c *Ctx) {
 	}
 	fn := info.Slots["PreExecute"]
 	name, pos := c.fn(fn), c.P.FuncPos(fn)
-	ee := c.NewExecEval(info, EvalConfig{Inline: func(f *ssa.Function, d int) bool { return f.Name() == "getCacheKey" }})
+	ee := c.NewExecEval(info, EvalConfig{Inline: func(f *ssa.Function, d int) bool { return canonName(f) == "getCacheKey" }})
 	ev, ts := ee.Ev, ee.Ev.TS
 	exec := ee.Sym("exec", fn.Params[1].Type())
 	paths := ee.RunSlot("PreExecute", exec)
@@ -493,7 +493,7 @@ func c11Post(c *Ctx) {
 	}
 	fn := info.Slots["PostExecute"]
 	name, pos := c.fn(fn), c.P.FuncPos(fn)
-	ee := c.NewExecEval(info, EvalConfig{Inline: func(f *ssa.Function, d int) bool { return f.Name() == "getCacheKey" }})
+	ee := c.NewExecEval(info, EvalConfig{Inline: func(f *ssa.Function, d int) bool { return canonName(f) == "getCacheKey" }})
 	ev, ts := ee.Ev, ee.Ev.TS
 	exec := ee.Sym("exec", fn.Params[1].Type())
 	er := ee.Sym("er", fn.Params[2].Type())
